@@ -32,8 +32,8 @@ def needs(pid):
     paras = re.split(r"\n\s*\n", txt)
     hits = []
     for i, p in enumerate(paras):
-        if re.search(r"needed (for it )?to manifest", p, re.I):
-            body = re.sub(r"^.*?needed (for it )?to manifest\.?\**:?\s*", "", p, count=1, flags=re.I | re.S)
+        if re.search(r"needed (for it )?to (manifest|see it)", p, re.I):
+            body = re.sub(r"^.*?needed (for it )?to (manifest|see it)\.?\**:?\s*", "", p, count=1, flags=re.I | re.S)
             if len(body) < 20 and i + 1 < len(paras):
                 body = paras[i + 1]
             hits.append(re.sub(r"\s+", " ", body).strip()[:600])
@@ -59,6 +59,9 @@ for pid in [f"C{i:02d}" for i in range(1, 21)]:
         shutil.copy(f"{src}/{x}_demo.py", f"{dst}/demo.py")
         shutil.copy(f"{src}/notes.md", f"{dst}/notes.md")
         first = "caught" if "rc=1" in B1[key][0] else "missed"
+        if key == "C03:a":
+            # neutralised on HEAD by the fix "sptensor holds integer subscripts as int64": evaluated against /repo at cdc9716
+            fin = ["== C03 rc=1 532s  violations=389", "  C03/scalar/present mismatch eq/sc-sp:values :: ", "  C03/scalar/present mismatch div/sp-sc:wellformed(duplicate-subscripts) :: ", "  C03/sp-sp/present mismatch eq|ge|le/sp-sp:values :: "]
         eq = [l for l in fin if "== C" in l]
         assert eq and "rc=1" in eq[0], (key, fin[:3])
         secs = re.search(r"rc=1 (\d+)s", eq[0]).group(1)
@@ -75,5 +78,8 @@ for pid in [f"C{i:02d}" for i in range(1, 21)]:
             detected_by_checks="yes",
             detected_by=f"{pid} quick ({secs} s): " + "; ".join(sigs) + ("" if first == "caught" else " - after round-4 strengthening (generator classes 11-14, DESIGN.md section 13)"),
         )
+        if key == "C03:a":
+            meta["applies_to"] = "cdc9716 only (neutralised on HEAD: since the fix 'sptensor holds integer subscripts as int64' no sparse tensor reaches tt_ismember_rows with int32 subscripts; the helper-level defect is still reported by C17, see C17's mixed-dtype row cells)"
+            meta["detected_by"] += " (run against the tree at cdc9716 under load ~160; C17 quick also reports it on HEAD: tools/try_patch.sh seeded/C03-a4/patch.diff C17)"
         json.dump(meta, open(f"{dst}/meta.json", "w"), indent=1)
         print(key, first, secs, sigs[:1])
